@@ -1069,7 +1069,11 @@ def run(ctx):
         i, what, info = items[0]
         ctx.violation(key, "real FieldPropagator/FieldDriver: " + what,
                       {"harness": "harness/fieldprop.cc", "op": lines[i], "info": info,
-                       "occurrences_this_run": len(items), "case": {k: v for k, v in metas[i].items()}})
+                       "occurrences_this_run": len(items),
+                       "deviation_kinds": {k: sum(1 for x in items if x[2].get("deviation") == k)
+                                           for k in sorted({x[2].get("deviation") for x in items
+                                                            if x[2].get("deviation")})},
+                       "case": {k: v for k, v in metas[i].items()}})
     dseen = {}
     for l, key, info in arc_fails:
         dseen.setdefault(key, []).append((l, info))
